@@ -105,7 +105,15 @@ func (s *sender) Send(ctx context.Context, b *seg.PathSegment) error {
 	if n.honest == nil {
 		n.honest = map[[32]byte]bool{}
 	}
-	n.honest[signedKey(pb)] = true
+	// "honest" = sent by an honest control service on top of verifiable content (after a listed known
+	// finding a control service may hold, and extend, a beacon that does not verify)
+	base := true
+	if k := len(pb.AsEntries); k > 1 {
+		base = w.refVerify(&cppb.PathSegment{SegmentInfo: pb.SegmentInfo, AsEntries: pb.AsEntries[:k-1]}).ok
+	}
+	if base {
+		n.honest[signedKey(pb)] = true
+	}
 	n.sent++
 	w.r.Logf("send #%d %s#%d -> %s#%d %s", m.Seq, a.IA, s.in.ID, m.To.IA, m.ToIf, descPB(pb))
 	return nil
